@@ -58,7 +58,9 @@ BOUNDS = {
              "for documents with <= 1 special slot; for two-slot documents the BytesIO x codec part only under the default LAParams",
     "thorough": "all choice vectors with <= 2 non-default slots over the full alphabets; same option grids and document pairs; "
                 "text sinks (StringIO, extract_text) additionally with codec in {utf-8, latin-1, ascii} under the default LAParams (both tiers); "
-                "rotation: 2 documents x page /Rotate in {0,90,180,270} (page 2: +90) x extract_text_to_fp(rotation=) in {0,90,180,270,360,450,-90} x LAParams {None, default} x "
+                "converters constructed directly and driven through PDFPageInterpreter (2 documents x first page number {1,7} x {StringIO,BytesIO}): "
+                "TextConverter(showpageno) and XMLConverter(stripcontrol) x LAParams {None, default}; HTMLConverter(showpageno x layoutmode x scale/fontscale/pagemargin x rect/text colours) "
+                "- HTML only for nesting, page anchors and text content (both tiers); rotation: 2 documents x page /Rotate in {0,90,180,270} (page 2: +90) x extract_text_to_fp(rotation=) in {0,90,180,270,360,450,-90} x LAParams {None, default} x "
                 "{text, xml} x {StringIO, BytesIO}, each compared with rotation=0 on the hand-rotated document and with its tree (both tiers); "
                 "for documents with <= 1 special slot also real files (wb, w+b, r+b, ab, TemporaryFile, w, w+) compared with BytesIO/StringIO (both tiers)",
 }
@@ -79,7 +81,8 @@ META = {
         "expat (xml.etree) is the judge of well-formedness; XML 1.0 character range as implemented by expat",
         "the LTPage tree returned by extract_pages (PDFPageAggregator for laparams=None) is trusted as the hierarchy (C05-C09 judge it)",
         "well-formedness of XML in presence of characters XML 1.0 cannot represent (C0 controls, U+FFFF) is required only under strip_control=True; with strip_control=False such documents are not judged for XML",
-        "html, hocr and tag outputs, image export (output_dir) and inline images (figure name is id()-derived, see C12) are not generated",
+        "HTML is not named by the statement: HTMLConverter output is checked only for element nesting, one anchor per page id and (normal/loose mode) text content modulo line breaks; its footer links and styles are not judged",
+        "hocr and tag outputs, image export (output_dir) and inline images (figure name is id()-derived, see C12) are not generated",
         "only the one document skeleton; strings longer than the alphabet entries and more than two special slots at once are not explored",
         "linewidth, colourspace and ncolour attributes are not compared (not named by the statement)",
     ],
@@ -827,6 +830,189 @@ def check_rot(r: int, st) -> None:
             st.traces += 1
 
 
+# ------------------------------------------- converters constructed directly
+# Constructor options the high-level functions never set, driven through PDFPageInterpreter.
+def direct_configs():
+    out = []
+    for pageno in (1, 7):
+        for sink in ("str", "bytes"):
+            for la in (None, {}):
+                for show in (False, True):
+                    out.append(("text", {"showpageno": show}, la, sink, pageno))
+                for strip in (False, True):
+                    out.append(("xml", {"stripcontrol": strip}, la, sink, pageno))
+            for show in (True, False):
+                for mode in ("normal", "exact", "loose"):
+                    for scale, fontscale, margin in ((1, 1.0, 50), (2, 0.5, 0)):
+                        for colors in (None, "all"):
+                            out.append(("html", {"showpageno": show, "layoutmode": mode, "scale": scale, "fontscale": fontscale,
+                                                 "pagemargin": margin, "colors": colors}, {}, sink, pageno))
+    return out
+
+
+def direct_docs():
+    base = PROGRAMS["full"](Chooser(()))
+    return [dict(base), {**base, "tA": "<", "tB": "&", "page2": 1}]
+
+
+def _html_facts(text: str):
+    """(problems, page anchors, character data without line breaks) of an HTMLConverter output."""
+    from html.parser import HTMLParser
+
+    void = {"meta", "br", "img"}
+    problems, anchors, data, stack = [], [], [], []
+    cut = text.rfind('<div style="position:absolute; top:0px;">Page: ')
+
+    class P(HTMLParser):
+        def handle_starttag(self, tag, attrs):
+            if tag == "a" and dict(attrs).get("name") is not None:
+                anchors.append(dict(attrs)["name"])
+            if tag not in void:
+                stack.append(tag)
+
+        def handle_startendtag(self, tag, attrs):
+            pass
+
+        def handle_endtag(self, tag):
+            if tag in void:
+                return
+            if not stack or stack[-1] != tag:
+                problems.append(f"</{tag}> closes {stack[-1] if stack else 'nothing'}")
+                if tag in stack:
+                    while stack and stack.pop() != tag:
+                        pass
+            else:
+                stack.pop()
+
+        def handle_data(self, d):
+            if "a" not in stack and self.getpos_abs() < (cut if cut >= 0 else len(text)) and "body" in stack:
+                data.append(d)
+
+        def getpos_abs(self):
+            line, col = self.getpos()
+            return offsets[line - 1] + col
+
+    offsets = [0]
+    for ln in text.split("\n"):
+        offsets.append(offsets[-1] + len(ln) + 1)
+    p = P(convert_charrefs=True)
+    p.feed(text)
+    p.close()
+    if stack:
+        problems.append("unclosed: " + ",".join(stack))
+    return problems, anchors, "".join(data).replace("\n", "")
+
+
+def _run_direct(args):
+    pdf, (conv, opts, la, sink, pageno) = args
+    import pdfminer.converter as cv
+
+    hl, lt, Agg, Interp, Rsrc, PDFPage = _pdfminer()
+    lap = (lambda: None if la is None else lt.LAParams(**la))
+    # the hierarchy, with the same first page number
+    rm = Rsrc()
+    agg = Agg(rm, pageno=pageno, laparams=lap())
+    ip = Interp(rm, agg)
+    pages = []
+    for page in PDFPage.get_pages(io.BytesIO(pdf)):
+        ip.process_page(page)
+        pages.append(agg.get_result())
+    out = io.StringIO() if sink == "str" else io.BytesIO()
+    rm = Rsrc()
+    textual = sink == "str"
+    try:
+        if conv == "text":
+            dev = cv.TextConverter(rm, out, codec="utf-8", pageno=pageno, laparams=lap(), **opts)
+        elif conv == "xml":
+            dev = cv.XMLConverter(rm, out, codec="" if textual else "utf-8", pageno=pageno, laparams=lap(), **opts)
+        else:
+            o = dict(opts)
+            colors = o.pop("colors")
+            if colors == "all":
+                o["rect_colors"] = {"figure": "yellow", "textline": "magenta", "textbox": "cyan", "textgroup": "red", "curve": "black", "page": "gray"}
+                o["text_colors"] = {"textbox": "blue", "char": "black"}
+            dev = cv.HTMLConverter(rm, out, codec="" if textual else "utf-8", pageno=pageno, laparams=lap(), **o)
+        ip = Interp(rm, dev)
+        for page in PDFPage.get_pages(io.BytesIO(pdf)):
+            ip.process_page(page)
+        dev.close()
+    except Exception as e:  # noqa
+        tb = traceback.extract_tb(e.__traceback__)
+        sig = f"{type(e).__name__}@{tb[-1].name}"
+        return ("judged", ("exc", sig), [(f"C11/direct-{conv}-raises:{sig}", "no exception", f"{type(e).__name__}: {e}"[:200], "converter constructed directly raised")])
+    val = out.getvalue()
+    try:
+        text = val if textual else val.decode("utf-8")
+    except UnicodeDecodeError as e:
+        return ("judged", h64(val), [(f"C11/direct-{conv}-undecodable", "utf-8", str(e)[:80], "binary sink content is not in the requested codec")])
+    viols = []
+    if conv == "text":
+        exp = "".join((f"Page {p.pageid}\n" if opts["showpageno"] else "") + tree_text([p]) for p in pages)
+        if text != exp:
+            sig = "C11/text-page-header-wrong" if opts["showpageno"] and re.sub(r"Page \d+\n", "", text) == re.sub(r"Page \d+\n", "", exp) else "C11/direct-text-differs-from-tree"
+            viols.append((sig, exp[:300], text[:300], "TextConverter output is not [Page <pageid>] + the page's text + form feed, page by page"))
+    elif conv == "xml":
+        strip = opts["stripcontrol"]
+        strings = tree_strings(pages)
+        if any(XML_FORBIDDEN.search(t) for _, t in strings) and not strip:
+            return ("xml-unrepresentable-chars-without-strip_control", None, [])
+        try:
+            root = ET.fromstring(text)
+            compare_xml(root, pages, strip)
+        except ET.ParseError as e:
+            viols.append(("C11/direct-xml-not-wellformed", "well-formed XML", str(e), "expat rejects the output"))
+        except Diff as d:
+            viols.append((f"C11/direct-xml-{d.kind}-mismatch", d.expected, d.observed, f"XML differs from the hierarchy at {d.path}"))
+    else:
+        # HTML is not named by the property statement: only structural sanity and the text content are looked at
+        problems, anchors, data = _html_facts(text)
+        if problems:
+            viols.append(("C11/direct-html-unbalanced", "balanced elements", problems[:3], "HTML elements are not properly nested"))
+        want = [str(p.pageid) for p in pages] if opts["showpageno"] else []
+        if anchors != want:
+            viols.append(("C11/direct-html-page-anchors", want, anchors, "one anchor per page, named by the page id"))
+        if opts["layoutmode"] != "exact":
+            leaf = re.sub(r"[\n\f]", "", "".join(tree_text([p]) for p in pages))
+            # the text-box separators of the text form are not part of the HTML form: compare glyph and LTAnno text only
+            exp = "".join(t for k, t in _leaf_texts(pages)).replace("\n", "")
+            if data != exp:
+                viols.append(("C11/direct-html-text-differs-from-tree", exp[:300], data[:300], "character data of the HTML output is not the text of the hierarchy"))
+    return ("judged", h64(text), viols)
+
+
+def _leaf_texts(pages):
+    _, lt, *_ = _pdfminer()
+    out = []
+
+    def walk(it):
+        if isinstance(it, lt.LTContainer):
+            for c in it:
+                walk(c)
+        elif isinstance(it, lt.LTText):
+            out.append(("t", it.get_text()))
+
+    for p in pages:
+        walk(p)
+    return out
+
+
+def check_direct(di: int, st) -> None:
+    _pdfminer()
+    m = direct_docs()[di]
+    pdf = build_pdf(m)
+    for cfg in direct_configs():
+        status, outcome, viols = fork_call(_run_direct, (pdf, cfg))
+        st.transitions += 1
+        st.states += 1
+        if status != "judged":
+            st.not_judged[status] += 1
+            continue
+        st.case(None, nontrivial=True, outcome=outcome)
+        for sig, exp, obs, what in viols:
+            st.violation(sig, {"family": "direct", "pdf": pdf, "config": [cfg[0], cfg[1], cfg[2], cfg[3], cfg[4]], "slots": m}, exp, obs, what)
+    st.traces += 1
+
+
 # -------------------------------------------------------------------- shards
 def _arity(fam):
     x = Chooser(())
@@ -855,11 +1041,18 @@ def shards(tier):
     out += [("seq", i, None, None) for i in range(n)]
     # family 4: extract_text_to_fp(rotation=k) x page /Rotate r
     out += [("rot", r, None, None) for r in PAGE_ROTATIONS]
+    # family 5: converters constructed directly with the options the high-level functions never set
+    out += [("direct", i, None, None) for i in range(len(direct_docs()))]
     return out
 
 
 def run_shard(shard, tier, st):
     fam, prefixes, expand, bound = shard
+    if fam == "direct":
+        check_direct(prefixes, st)
+        if prefixes == 0:
+            st.sample({"family": "direct", "configs": len(direct_configs()), "example": list(direct_configs()[3])})
+        return
     if fam == "rot":
         check_rot(prefixes, st)
         if prefixes == 270:
@@ -898,7 +1091,10 @@ def replay(case):
     from mc.core import jenc
 
     _pdfminer()
-    if case.get("family") == "rot":
+    if case.get("family") == "direct":
+        c = case["config"]
+        _, _, viols = fork_call(_run_direct, (case["pdf"], (c[0], c[1], c[2], c[3], c[4])))
+    elif case.get("family") == "rot":
         _, _, viols = fork_call(_run_rot, (case["pdf"], case["pdf_ref"], case["rotation"], case["la"], tuple(case["row"])))
     elif case.get("family") == "seq":
         _, _, viols = fork_call(_run_seq, (case["pdf_a"], case["pdf"], tuple(case["row"])))
